@@ -8,6 +8,7 @@
 package main
 
 import (
+	"sync"
 	"encoding/json"
 	"math/big"
 	"context"
@@ -54,6 +55,13 @@ type Case struct {
 	Twin     int       `json:"twin"`    // id of the control case (-1: none)
 	Control  bool      `json:"control"` // this case is a control (its failure is not reported)
 	Note     string    `json:"note,omitempty"`
+	// C12: crash points of operations that follow a reorg reaching below the load horizon of the
+	// previously saved tip are judged in a case of their own (known finding D27)
+	CrashPart string `json:"crash_part,omitempty"` // "" = all other crash points, "deep" = only those
+	Trigger   string `json:"trigger,omitempty"`
+	deepCoq   string
+	Crash  bool `json:"crash,omitempty"`   // C12: enumerate the crash points of every Clean / Save
+	CrashD int  `json:"crash_d,omitempty"` // prune depth of the Load after a crash
 	// locator on the real fixture chain (heights 556000..): tip index T, requested maximum
 	Fix    bool `json:"fix,omitempty"`
 	FixT   int  `json:"fix_t,omitempty"`
@@ -117,7 +125,118 @@ func classify(err error) string {
 	return "VOther"
 }
 
+// recStore records the Write / Remove calls a Clean or Save issues (C12).
+type wr struct {
+	key    string
+	data   []byte
+	remove bool
+}
+
+type recStore struct {
+	*storage.MockStorage
+	rec bool
+	log []wr
+}
+
+func (s *recStore) Write(ctx context.Context, key string, body []byte, o *storage.Options) error {
+	if s.rec {
+		s.log = append(s.log, wr{key: key, data: append([]byte{}, body...)})
+	}
+	return s.MockStorage.Write(ctx, key, body, o)
+}
+
+func (s *recStore) Remove(ctx context.Context, key string) error {
+	if s.rec {
+		s.log = append(s.log, wr{key: key, remove: true})
+	}
+	return s.MockStorage.Remove(ctx, key)
+}
+
+type crashObs struct {
+	ok    bool
+	chain []int
+	work  string
+	note  string
+}
+
+// crashExec runs a Clean or Save while recording its storage writes, then loads a fresh
+// repository from the image after every prefix of those writes.
+func (r *runner) crashExec(op Op, depth int) (obs, []crashObs) {
+	snap := map[string][]byte{}
+	r.store.Data.Range(func(k, v interface{}) bool {
+		snap[k.(string)] = append([]byte{}, v.([]byte)...)
+		return true
+	})
+	r.rs.log, r.rs.rec = nil, true
+	o := r.exec(op)
+	r.rs.rec = false
+	log := r.rs.log
+	var res []crashObs
+	for j := 0; j <= len(log); j++ {
+		img := storage.NewMockStorage()
+		for k, v := range snap {
+			img.Write(r.ctx, k, v, nil)
+		}
+		for _, w := range log[:j] {
+			if w.remove {
+				img.Remove(r.ctx, w.key)
+			} else {
+				img.Write(r.ctx, w.key, w.data, nil)
+			}
+		}
+		co := crashObs{}
+		func() {
+			defer func() {
+				if rec := recover(); rec != nil {
+					co = crashObs{note: fmt.Sprint("panic: ", rec)}
+				}
+			}()
+			repo := headers.NewRepository(r.cfg, img)
+			repo.DisableDifficulty()
+			if err := repo.VerifLoad(r.ctx, depth); err != nil {
+				co.note = "error: " + err.Error()
+				return
+			}
+			hgt := repo.Height()
+			bulk := 0 // long chains: the range query for the old part, per-height queries for the top 80
+			if hgt > 200 {
+				bulk = hgt - 80
+				hs, err := repo.GetHeaders(r.ctx, 0, bulk)
+				if err != nil || len(hs) != bulk {
+					co.chain = append(co.chain, 999996)
+				}
+				for _, x := range hs {
+					co.chain = append(co.chain, r.id(*x.BlockHash()))
+				}
+			}
+			for h := bulk; h <= hgt; h++ {
+				hash, err := repo.Hash(r.ctx, h)
+				if err != nil || hash == nil {
+					co.chain = append(co.chain, 999998)
+					continue
+				}
+				co.chain = append(co.chain, r.id(*hash))
+			}
+			if len(co.chain) > 0 && co.chain[len(co.chain)-1] != r.id(repo.LastHash()) {
+				co.chain = append(co.chain, 999997) // Hash(Height) is not the tip
+			}
+			co.work = repo.AccumulatedWork().String()
+			co.ok = true
+		}()
+		if !co.ok && os.Getenv("VERIF_DEBUG") != "" {
+			fmt.Fprintf(os.Stderr, "crash point %d/%d of %s: %s\n", j, len(log), op.K, co.note)
+		}
+		if co.work == "" {
+			co.work = "0"
+		}
+		res = append(res, co)
+	}
+	return o, res
+}
+
 type runner struct {
+	rs      *recStore
+	crashD  int
 	ctx     context.Context
 	cfg     *headers.Config
 	store   *storage.MockStorage
@@ -140,7 +259,8 @@ func newRunner(c *Case) *runner {
 	r := &runner{ctx: coqfmt.QuietContext(), ids: map[bitcoin.Hash32]int{}}
 	r.cfg = &headers.Config{Network: bitcoin.MainNet, MaxBranchDepth: c.MaxDepth}
 	r.store = storage.NewMockStorage()
-	r.repo = headers.NewRepository(r.cfg, r.store)
+	r.rs = &recStore{MockStorage: r.store}
+	r.repo = headers.NewRepository(r.cfg, r.rs)
 	r.repo.DisableDifficulty()
 	r.repo.InitializeWithGenesis()
 	g, err := r.repo.Header(r.ctx, 0)
@@ -406,7 +526,7 @@ func (r *runner) exec(op Op) (o obs) {
 		if !r.saved { // nothing was saved: not a history of the model (migration / genesis init)
 			return obs{kind: "skip"}
 		}
-		repo := headers.NewRepository(r.cfg, r.store)
+		repo := headers.NewRepository(r.cfg, r.rs)
 		repo.DisableDifficulty()
 		err := repo.VerifLoad(r.ctx, op.D)
 		if err == nil {
@@ -455,6 +575,31 @@ func coqCase(c *Case) (string, map[string]int) {
 	st := map[string]int{}
 	ops := make([]string, 0, len(c.Ops))
 	outs := make([]string, 0, len(c.Ops))
+	var crashes, deepCrashes []string
+	var fileChain, indexChain []int // best chain last written to the main files / under the last index
+	bestChain := func() []int {
+		var l []int
+		bulk := 0
+		if r.repo.Height() > 200 {
+			bulk = r.repo.Height() - 80
+			if hs, err := r.repo.GetHeaders(r.ctx, 0, bulk); err == nil {
+				for _, x := range hs {
+					l = append(l, r.id(*x.BlockHash()))
+				}
+			}
+			for len(l) < bulk {
+				l = append(l, 0)
+			}
+		}
+		for h := bulk; h <= r.repo.Height(); h++ {
+			if x, err := r.repo.Hash(r.ctx, h); err == nil && x != nil {
+				l = append(l, r.id(*x))
+			} else {
+				l = append(l, 0)
+			}
+		}
+		return l
+	}
 	nq := len(c.Hdrs) + 1
 	qs := make([]int, 0, nq)
 	for i := range c.Hdrs {
@@ -490,7 +635,49 @@ func coqCase(c *Case) (string, map[string]int) {
 			}
 			continue
 		}
-		o = r.exec(op)
+		if c.Crash && (op.K == "clean" || op.K == "save") {
+			d := op.D
+			if op.K == "save" || d == 0 {
+				d = c.CrashD
+			}
+			newChain := bestChain()
+			deep := func(x []int) bool { // x leaves the chain under the index below that chain's load horizon
+				if indexChain == nil || x == nil {
+					return false
+				}
+				f := 0
+				for f < len(x) && f < len(indexChain) && x[f] == indexChain[f] {
+					f++
+				}
+				return f-1 < len(indexChain)-1-d
+			}
+			flagged := deep(fileChain) || deep(newChain)
+			var cos []crashObs
+			o, cos = r.crashExec(op, d)
+			if o.kind != "panic" {
+				fileChain = newChain
+				if op.K == "save" {
+					indexChain = newChain
+				}
+			}
+			items := make([]string, len(cos))
+			for i, co := range cos {
+				items[i] = fmt.Sprintf("mkCObs %s %s %s", coqfmt.Bool(co.ok), ints(co.chain), co.work)
+				st["crash_points"]++
+				if !co.ok {
+					st["crash_load_failed"]++
+				}
+			}
+			if flagged {
+				deepCrashes = append(deepCrashes, fmt.Sprintf("(%d%%nat, %s)", len(ops), coqfmt.List(items)))
+				st["crash_ops_after_deep_reorg"]++
+			} else {
+				crashes = append(crashes, fmt.Sprintf("(%d%%nat, %s)", len(ops), coqfmt.List(items)))
+			}
+			st["crash_ops_"+op.K]++
+		} else {
+			o = r.exec(op)
+		}
 		if o.kind == "skip" {
 			st["skipped_"+op.K]++
 			continue
@@ -543,6 +730,20 @@ func coqCase(c *Case) (string, map[string]int) {
 				ints(o.chain), coqfmt.List(lks)))
 		}
 	}
+	if c.Crash {
+		mk := func(obs []string) string {
+			return fmt.Sprintf("(mkCCase (mkCfg %s 10000%%Z 10000%%Z 1) (%s)\n  %s\n  %s)", coqfmt.Z(int64(c.MaxDepth)),
+				r.coqHdr(c, 0), coqfmt.List(ops), coqfmt.List(obs))
+		}
+		c.deepCoq = ""
+		if len(deepCrashes) > 0 {
+			c.deepCoq = mk(deepCrashes)
+		}
+		if c.CrashPart == "deep" {
+			return mk(deepCrashes), st
+		}
+		return mk(crashes), st
+	}
 	s := fmt.Sprintf("mkCase %d (mkCfg %s 10000%%Z 10000%%Z 1) (%s)\n  %s\n  %s", c.Mask, coqfmt.Z(int64(c.MaxDepth)),
 		r.coqHdr(c, 0), coqfmt.List(ops), coqfmt.List(outs))
 	return "(" + s + ")", st
@@ -575,6 +776,10 @@ var profiles = map[string]profile{
 	"C11": {mask: 1 | 4 | 8 | 16, clean: 4, save: 3, load: 8, dupes: 2, orphans: 2, twinDrop: "save,load"},
 	// invalid marking
 	"C17": {mask: 1 | 4 | 8, mark: 8, save: 1, load: 2, dupes: 3, orphans: 2},
+	// crash points of Clean / Save (no loads inside the history: every crash point loads a fresh repository)
+	// (no invalid marking either: a mark is not persisted until the next Clean / Save, so a crash
+	// legitimately brings invalidated headers back; that is C17's persistence clause, not C12)
+	"C12": {mask: 0, clean: 7, save: 6, dupes: 1, orphans: 2},
 	// merkle proofs against headers on the best chain, on side branches, pruned and reloaded
 	"C18": {mask: 128, proofs: 60, clean: 6, save: 2, load: 4, orphans: 3},
 	// locators after every operation
@@ -793,6 +998,39 @@ func genCase(r *coqfmt.Rand, id int, pf profile, size int) Case {
 	return c
 }
 
+// prependChain puts a straight chain of L headers between genesis and the rest of the plan, so
+// that the history works around height L (C12: the 1000-header file boundary).
+func prependChain(c Case, L int) Case {
+	t := c
+	t.Hdrs = make([]PlanHdr, 1, len(c.Hdrs)+L)
+	t0 := uint32(1231006505)
+	for i := 1; i <= L; i++ {
+		t.Hdrs = append(t.Hdrs, PlanHdr{P: i - 1, Bits: 0x1d00ffff, T: t0 + uint32(600*i)})
+	}
+	for i := 1; i < len(c.Hdrs); i++ {
+		h := c.Hdrs[i]
+		if h.P == 0 {
+			h.P = L
+		} else {
+			h.P += L
+		}
+		h.T += uint32(600 * L)
+		t.Hdrs = append(t.Hdrs, h)
+	}
+	t.Ops = make([]Op, 0, len(c.Ops)+L)
+	for i := 1; i <= L; i++ {
+		t.Ops = append(t.Ops, Op{K: "submit", I: i})
+	}
+	for _, op := range c.Ops {
+		if op.K == "submit" || op.K == "mark" || op.K == "unmark" || op.K == "proof" {
+			op.I += L
+		}
+		t.Ops = append(t.Ops, op)
+	}
+	t.Note = fmt.Sprintf("base chain of %d headers", L)
+	return t
+}
+
 func dropOps(c Case, kinds string) Case {
 	t := c
 	t.Ops = nil
@@ -856,6 +1094,14 @@ func main() {
 				sz = 8 // plenty of tiny trees
 			}
 			c := genCase(root.Fork(uint64(i)), len(cases), pf, sz)
+			if *prof == "C12" {
+				c = dropOps(c, "observe")
+				if i%25 == 7 { // work across the boundary between header files 0 and 1
+					c = prependChain(c, 985+root.Fork(uint64(i)^0xf11e).Intn(20))
+				}
+				c.Crash = true
+				c.CrashD = []int{2, 5, 10000, 10000}[root.Fork(uint64(i)^0xc12).Intn(4)]
+			}
 			if pf.twinDrop != "" {
 				c.Twin = len(cases) + 1
 				cases = append(cases, c)
@@ -884,6 +1130,28 @@ func main() {
 	stats := map[string]int{}
 	shapes := map[string]bool{}
 	nontrivial := map[string]bool{}
+	type res struct {
+		s  string
+		st map[string]int
+	}
+	results := make([]res, len(cases))
+	{
+		var wg sync.WaitGroup
+		sem := make(chan struct{}, 16)
+		for i := range cases {
+			if cases[i].Fix {
+				continue
+			}
+			wg.Add(1)
+			sem <- struct{}{}
+			go func(i int) {
+				defer wg.Done()
+				defer func() { <-sem }()
+				results[i].s, results[i].st = coqCase(&cases[i])
+			}(i)
+		}
+		wg.Wait()
+	}
 	for i := range cases {
 		if cases[i].Fix {
 			coq[i] = fixLocator(&cases[i])
@@ -891,8 +1159,15 @@ func main() {
 			stats[fmt.Sprintf("fixture_locator_max_%d", cases[i].FixMax)]++
 			continue
 		}
-		s, st := coqCase(&cases[i])
+		s, st := results[i].s, results[i].st
 		coq[i] = s
+		if *replay == "" && cases[i].Crash && cases[i].CrashPart == "" && cases[i].deepCoq != "" {
+			d := cases[i]
+			d.ID, d.CrashPart, d.Trigger = len(cases), "deep", "c12-deep-reorg"
+			cases = append(cases, d)
+			coq = append(coq, d.deepCoq)
+			stats["cases_with_deep_reorg_part"]++
+		}
 		for k, v := range st {
 			stats[k] += v
 		}
@@ -954,7 +1229,11 @@ func main() {
 			continue
 		}
 		path := filepath.Join(*out, fmt.Sprintf("cases_%d.v", s))
-		if err := coqfmt.WriteCases(path, "From BR Require Import Base.Prelude Headers.Tree.", "tcase", "mismatches", part); err != nil {
+		imports, ty, fn := "From BR Require Import Base.Prelude Headers.Tree.", "tcase", "mismatches"
+		if *prof == "C12" {
+			imports, ty, fn = "From BR Require Import Base.Prelude Headers.Tree Headers.Crash.", "ccase", "cmismatches"
+		}
+		if err := coqfmt.WriteCases(path, imports, ty, fn, part); err != nil {
 			fmt.Fprintln(os.Stderr, err)
 			os.Exit(2)
 		}
